@@ -20,6 +20,8 @@
 (*  Rt   {len, ty, chunk, enc: ok|refused, res, eq, alloc}  WriteFrameToWriter then decode     *)
 (*  FD   {dir, sent, len, eq, eof, hung}    forwarding pair (runBidirectionalForward x2):      *)
 (*        what FrameStream.Read returned on the receiving node for one direction               *)
+(*  LD   {sent, len, eq, eof, hung}   listener path: what the source side of the bridge received  *)
+(*        of the tunnel bytes written right behind the TargetReady frame                        *)
 (*  FE   {who, sent, len, eq, eof, hung, needEof}   what the endpoint behind the receiving     *)
 (*        forwarder got                                                                        *)
 (* Write results are logged before the deliveries of a trace (the writer's calls are a script; *)
@@ -34,20 +36,21 @@ VARIABLES cfg,        \* the Cfg record of the current trace (or Nil)
           closed,     \* "" or the kind of the first successful CloseWrite/Close
           delivered,  \* own bytes delivered so far
           collEnd,    \* an EOF/Close frame of a tunnel with a colliding 16-byte id was on the connection
+          nulEnd,     \* an EOF/Close frame of a tunnel whose id agrees with ours up to a NUL byte was on it
           ended       \* REnd seen
-vars == <<l, viol, cfg, written, closed, delivered, collEnd, ended>>
+vars == <<l, viol, cfg, written, closed, delivered, collEnd, nulEnd, ended>>
 
 Nil == [kind |-> "none"]
-Init == l = 1 /\ viol = {} /\ cfg = Nil /\ written = 0 /\ closed = "" /\ delivered = 0 /\ collEnd = FALSE /\ ended = FALSE
+Init == l = 1 /\ viol = {} /\ cfg = Nil /\ written = 0 /\ closed = "" /\ delivered = 0 /\ collEnd = FALSE /\ nulEnd = FALSE /\ ended = FALSE
 
 F(r, f, d) == IF f \in DOMAIN r THEN r[f] ELSE d
 Idk == F(cfg, "idk", "?")
 Rsz == F(cfg, "rsz", "?")
 Add(c, d) == viol' = viol \cup {V(c, d)}
-Keep == UNCHANGED <<cfg, written, closed, delivered, collEnd, ended>>
+Keep == UNCHANGED <<cfg, written, closed, delivered, collEnd, nulEnd, ended>>
 
 TrCfg == /\ Is("Cfg") /\ cfg' = Ev /\ l' = l + 1
-         /\ UNCHANGED <<viol, written, closed, delivered, collEnd, ended>>
+         /\ UNCHANGED <<viol, written, closed, delivered, collEnd, nulEnd, ended>>
 
 \* ---- stream --------------------------------------------------------------------------------
 TrW == /\ Is("W") /\ l' = l + 1
@@ -64,15 +67,17 @@ TrW == /\ Is("W") /\ l' = l + 1
           ELSE /\ written' = written
                /\ IF Ev.err THEN Add("Complete", "close-failed:" \o Ev.op) /\ closed' = closed
                   ELSE viol' = viol /\ closed' = (IF closed = "" THEN Ev.op ELSE closed)
-       /\ UNCHANGED <<cfg, delivered, collEnd, ended>>
+       /\ UNCHANGED <<cfg, delivered, collEnd, nulEnd, ended>>
 
 TrInj == /\ Is("Inj") /\ l' = l + 1
          /\ collEnd' = (collEnd \/ (Ev.idrel = "same16" /\ Ev.ty # "data"))
+         /\ nulEnd' = (nulEnd \/ (Ev.idrel = "diffnul" /\ Ev.ty # "data"))
          /\ UNCHANGED <<viol, cfg, written, closed, delivered, ended>>
 
 ForeignDetail(e) == IF e.src = "junk" THEN "junk"
                     ELSE IF e.k \in {"fds", "fes"} THEN "id16:" \o Idk \o ":data"
                     ELSE IF e.k = "unk" THEN "unknown-type"
+                    ELSE IF e.k \in {"fdn", "fen"} THEN "foreign:data:nul:" \o Idk   \* ids differ inside the 16 bytes, after a NUL
                     ELSE "foreign:data"
 
 TrD == /\ Is("D") /\ l' = l + 1
@@ -84,18 +89,19 @@ TrD == /\ Is("D") /\ l' = l + 1
                   ELSE viol' = viol
           ELSE /\ delivered' = delivered
                /\ Add("NoForeign", ForeignDetail(Ev))
-       /\ UNCHANGED <<cfg, written, closed, collEnd, ended>>
+       /\ UNCHANGED <<cfg, written, closed, collEnd, nulEnd, ended>>
 
 EndDetail == "rsz=" \o Rsz \o ":end=" \o closed
 TrREnd == /\ Is("REnd") /\ l' = l + 1 /\ ended' = TRUE
           /\ LET vs == (IF Ev.how = "eof" /\ closed = "" THEN {V("Complete", "eof-before-close")} ELSE {})
                   \cup (IF Ev.how = "eof" /\ closed # "" /\ delivered < written
-                        THEN {V("Complete", IF collEnd THEN "id16:" \o Idk \o ":eof" ELSE "lost:" \o EndDetail)} ELSE {})
+                        THEN {V("Complete", IF collEnd THEN "id16:" \o Idk \o ":eof"
+                                               ELSE IF nulEnd THEN "foreign-end:nul:" \o Idk ELSE "lost:" \o EndDetail)} ELSE {})
                   \cup (IF Ev.how = "hung" /\ closed # "" THEN {V("Complete", "hung:" \o EndDetail)} ELSE {})
                   \cup (IF Ev.how = "err" THEN {V("Complete", "read-error:" \o EndDetail)} ELSE {})
                   \cup (IF Ev.after = "data" THEN {V("Complete", "data-after-eof")} ELSE {})
              IN viol' = viol \cup vs
-          /\ UNCHANGED <<cfg, written, closed, delivered, collEnd>>
+          /\ UNCHANGED <<cfg, written, closed, delivered, collEnd, nulEnd>>
 
 \* ---- decoder -------------------------------------------------------------------------------
 Cls(c) == c.hdr \o ":" \o c.ty \o ":" \o c.decl \o ":" \o c.avail
@@ -127,6 +133,10 @@ PipeViol(e, x, needEof) ==
        (IF ~e.eq \/ e.len > e.sent THEN {V("InOrder", FwdDetail(x))} ELSE {})
   \cup (IF e.eq /\ e.len < e.sent THEN {V("Complete", "short:" \o FwdDetail(x))} ELSE {})
   \cup (IF needEof /\ e.eq /\ e.len = e.sent /\ ~e.eof THEN {V("Complete", "no-eof:" \o FwdDetail(x))} ELSE {})
+PipeViol2(e, d) ==
+       (IF ~e.eq \/ e.len > e.sent THEN {V("InOrder", d)} ELSE {})
+  \cup (IF e.eq /\ e.len < e.sent THEN {V("Complete", "short:" \o d)} ELSE {})
+  \cup (IF e.eq /\ e.len = e.sent /\ ~e.eof THEN {V("Complete", "no-eof:" \o d)} ELSE {})
 TrFD == /\ Is("FD") /\ l' = l + 1
         /\ viol' = viol \cup PipeViol(Ev, Ev.dir, TRUE)     \* each direction is (half-)closed by its writer
         /\ Keep
@@ -134,9 +144,16 @@ TrFE == /\ Is("FE") /\ l' = l + 1
         /\ viol' = viol \cup PipeViol(Ev, Ev.who, Ev.needEof)
         /\ Keep
 
-TrEnd == /\ Is("End") /\ EmitVerdict /\ l' = l + 1
-         /\ viol' = {} /\ cfg' = Nil /\ written' = 0 /\ closed' = "" /\ delivered' = 0 /\ collEnd' = FALSE /\ ended' = FALSE
+\* ---- listener path: TargetReady frame, then raw tunnel bytes on the same connection ------------
+\* LD = what the source side of the bridge received of the bytes the target node wrote right
+\* behind the TargetReady frame (handleConnection -> handleTargetReady -> runBridgeForward)
+TrLD == /\ Is("LD") /\ l' = l + 1
+        /\ viol' = viol \cup PipeViol2(Ev, "listener:" \o F(cfg, "cuts", "?") \o ":dsz=" \o F(cfg, "dsz", "?"))
+        /\ Keep
 
-Next == TrCfg \/ TrW \/ TrInj \/ TrD \/ TrREnd \/ TrDec \/ TrRt \/ TrFD \/ TrFE \/ TrEnd
+TrEnd == /\ Is("End") /\ EmitVerdict /\ l' = l + 1
+         /\ viol' = {} /\ cfg' = Nil /\ written' = 0 /\ closed' = "" /\ delivered' = 0 /\ collEnd' = FALSE /\ nulEnd' = FALSE /\ ended' = FALSE
+
+Next == TrCfg \/ TrW \/ TrInj \/ TrD \/ TrREnd \/ TrDec \/ TrRt \/ TrFD \/ TrFE \/ TrLD \/ TrEnd
 Spec == Init /\ [][Next]_vars
 =============================================================================
